@@ -389,9 +389,9 @@ def step_plan(prefix, res, tier, seed, only, extra=None):
         # the hash instances are the slowest of the family (13 min per cube measured): quick runs four of the seven cubes
         cap = 1500 if tier == "quick" else 3600
         if tier == "quick":
-            kinds = ["pawn", "castle", ["king", "knight", "bishop", "rook", "queen"][seed % 5]]
-            res.notrun.append("c10 step cubes of the other four piece kinds: thorough tier or another VERIF_SEED")
-    qs = [Query("brd::%s_step_%s_a%d" % (prefix, k, a), stubbing=True, rules=board_rules(a), default_unwind=2, timeout=cap, mem_gb=10)
+            kinds = ["castle", ["knight", "bishop", "rook", "queen"][seed % 4]]
+            res.notrun.append("c10 step cubes pawn, king and three of knight/bishop/rook/queen (7-20 min each): thorough tier or another VERIF_SEED")
+    qs = [Query("brd::%s_step_%s_a%d" % (prefix, k, a), stubbing=True, rules=board_rules(a), default_unwind=2, timeout=cap, mem_gb=6)
           for k in kinds]
     if extra:
         qs += extra
@@ -459,13 +459,13 @@ def plan_c06(res, tier, seed, only):
     cap = 900 if tier == "quick" else 3000
     mk = lambda nme, mem=8, **kw: Query("c06::" + nme, stubbing=kw.pop("stubbing", False), rules=c06_rules(a, 4), default_unwind=2, timeout=kw.pop("timeout", cap), mem_gb=mem, **kw)
     qs = [mk("c06_v_board_a%d" % a), mk("c06_v_fresh_w_a%d" % a), mk("c06_v_fresh_b_a%d" % a), mk("c06_v_ckpin_a%d" % a), mk("c06_v_castle"), mk("c06_v_ep"), mk("c06_v_clocks"),
-          mk("c06_startpos"), mk("c09_build_seq_r%s" % ["1458", "2367"][seed % 2], mem=8, stubbing=True, timeout=max(cap, 1500)), mk("c06_accessors_setters"),
+          mk("c06_startpos"), mk("c06_accessors_setters"),
           mk("c06_set_half_panics", should_panic=True), mk("c06_set_full_panics", should_panic=True)]
     if tier == "thorough":
         qs += [mk("c06_v_board_a16"), mk("c06_v_fresh_w_a16"), mk("c06_v_fresh_b_a16"), mk("c06_v_ckpin_a16"),
                mk("c09_build_seq", mem=16, stubbing=True), mk("c09_build_seq_r%s" % ["2367", "1458"][seed % 2], mem=8, stubbing=True)]
     else:
-        res.notrun.append("build() on the fully symbolic 64-cell builder (quick runs the variant with pieces confined to four ranks: 1,4,5,8 or 2,3,6,7 by VERIF_SEED): thorough tier")
+        res.notrun.append("build() sequencing (the glue that turns the validators into acceptance): run by C09's quick check on a reduced builder, here in the thorough tier on the 64-cell builder")
     engine.run_plan(res, filt(qs, only), workers=10)
     return RULE
 
@@ -481,7 +481,8 @@ def plan_c09(res, tier, seed, only):
     oracle_validation(res)
     cap = 900 if tier == "quick" else 3000
     rk = ["1458", "2367"]
-    qs = [Query("c06::c09_build_seq_r%s" % rk[seed % 2], stubbing=True, rules=c06_rules(a, n), default_unwind=2, timeout=max(cap, 1500), mem_gb=8),
+    rq = ["148", "158", "267", "237"]
+    qs = [Query("c06::c09_build_seq_r%s" % (rq[seed % 4] if tier == "quick" else rk[seed % 2]), stubbing=True, rules=c06_rules(a, n), default_unwind=2, timeout=max(cap, 1500), mem_gb=8),
           Query("c06::c09_from_board_n%d" % n, stubbing=True, rules=c06_rules(a, n), default_unwind=2, timeout=cap, mem_gb=10),
           H("c08", "c08_castle_shredder", timeout=cap, mem_gb=8), H("c08", "c08_ep", timeout=cap, mem_gb=8), H("c08", "c08_side", timeout=cap, mem_gb=8)]
     if tier == "thorough":
